@@ -131,6 +131,7 @@ class C18(Prop):
                    'sequence-valued attributes on the wire are C08\'s subject; (d) compares scalar-valued keys']
     quick_examples = 2500
     thorough_examples = 10000
+    fuzz_runs = 15000
     floors = {'attrs_eviction': 0.03, 'attrs_rejected': 0.1, 'attrs_frozen': 0.05, 'merge_override': 0.05,
               'create_env': 0.05, 'start_plugins': 0.03}
 
